@@ -45,6 +45,8 @@ CONSTANTS
   Mode,      \* "mc" | "periodic" | "gen" | "fullsend" | "fullrecv"
   H,         \* "periodic": the sweeper runs every H ticks (T/2 in the code)
   N,         \* "gen": length of the emitted operation sequences
+  PerRecordSweep,  \* TRUE: additionally offer the record-by-record sweep B / S1(a)  ("mc" only)
+  SnapshotSweep,   \* TRUE: S1 does not look at the record again (what the sweep must NOT be)
   Target     \* "inner": all operations but no Close/I/R  (replayed on clientMapInner, explicit clock)
              \* "conn" : no A (the real QueuePacketConn stamps records with the wall clock)
              \* "all"  : everything (model checking)
@@ -52,7 +54,8 @@ CONSTANTS
 Addrs == 1..NAddr
 
 VARIABLES now, rec, ch, held, recvQ, closed, npkt, last, hist,
-          swept   \* the time of the latest Sweep (used by Mode = "periodic" only)
+          swept   \* [at: the time of the latest Sweep (Mode = "periodic"); snap: the records a
+                  \*  sweep that proceeds record by record still has to look at (PerRecordSweep)]
 vars == <<now, rec, ch, held, recvQ, closed, npkt, last, hist, swept>>
 
 NoRec == [h |-> 0, seen |-> 0]
@@ -60,7 +63,7 @@ NoRes == [op |-> "none", res |-> "none", pkt |-> 0, from |-> 0]
 
 Init ==
   /\ now = 0 /\ rec = [a \in Addrs |-> NoRec] /\ ch = <<>> /\ held = [a \in Addrs |-> 0]
-  /\ recvQ = <<>> /\ closed = FALSE /\ npkt = 0 /\ last = NoRes /\ hist = <<>> /\ swept = 0
+  /\ recvQ = <<>> /\ closed = FALSE /\ npkt = 0 /\ last = NoRes /\ hist = <<>> /\ swept = [at |-> 0, snap |-> {}]
 
 Present == {a \in Addrs : rec[a].h # 0}
 Idle(a) == now - rec[a].seen
@@ -125,13 +128,36 @@ S ==
   /\ rec' = [a \in Addrs |-> IF a \in Expired THEN NoRec ELSE rec[a]]
   /\ ch' = [h \in DOMAIN ch |-> IF ch[h].a \in Expired /\ rec[ch[h].a].h = h THEN [ch[h] EXCEPT !.open = FALSE] ELSE ch[h]]
   /\ last' = Res("S", "ok", 0, 0)
-  /\ swept' = now
+  /\ swept' = [at |-> now, snap |-> {}]
   /\ UNCHANGED <<now, held, recvQ, closed, npkt>>
 
 A ==
   /\ now < MaxNow
   /\ now' = now + 1 /\ last' = Res("A", "ok", 0, 0)
   /\ UNCHANGED <<rec, ch, held, recvQ, closed, npkt, swept>>
+
+(* A sweep that does not hold the map for the whole pass: B notes which
+   records are expired now, S1(a) then deals with one of them per step, and
+   other operations (in particular Touch, from WriteTo/OutgoingQueue) may come
+   in between.  What such a sweep must be: atomic PER RECORD with respect to
+   Touch - S1(a) looks at the record again and discards it only if it is
+   (still) idle for the timeout.  SnapshotSweep = TRUE is the variant that
+   trusts the note taken by B: it discards a client that was seen in between
+   (NeverDiscardEarly and KeptWhileSeen fail; kept as a sensitivity run). *)
+B ==
+  /\ swept' = [swept EXCEPT !.snap = Expired]
+  /\ last' = Res("B", "ok", 0, 0)
+  /\ UNCHANGED <<now, rec, ch, held, recvQ, closed, npkt>>
+
+S1(a) ==
+  /\ a \in swept.snap
+  /\ swept' = [swept EXCEPT !.snap = @ \ {a}]
+  /\ last' = Res("S", "ok", 0, 0)
+  /\ IF rec[a].h # 0 /\ (SnapshotSweep \/ a \in Expired)
+     THEN /\ rec' = [rec EXCEPT ![a] = NoRec]
+          /\ ch' = [ch EXCEPT ![rec[a].h].open = FALSE]
+     ELSE UNCHANGED <<rec, ch>>
+  /\ UNCHANGED <<now, held, recvQ, closed, npkt>>
 
 C ==
   /\ closed' = TRUE
@@ -152,9 +178,11 @@ Op(name, a) ==
     [] name = "S" -> a = 0 /\ S
     [] name = "A" -> Target # "conn" /\ a = 0 /\ A
     [] name = "C" -> Conn /\ a = 0 /\ C
+    [] name = "B" -> PerRecordSweep /\ a = 0 /\ B
+    [] name = "S1" -> PerRecordSweep /\ S1(a)
 
-Names == {"W", "O", "D", "I", "R", "S", "A", "C"}
-WithAddr(name) == name \in {"W", "O", "D", "I"}
+Names == {"W", "O", "D", "I", "R", "S", "A", "C", "B", "S1"}
+WithAddr(name) == name \in {"W", "O", "D", "I", "S1"}
 
 (* gen: every sequence of exactly N operations; the addresses are introduced
    in order (address 2 only after address 1 was used) - the two are
@@ -185,7 +213,7 @@ FullRecvNext ==
 (* periodic: as "mc", but the Sweep is not free - it happens exactly at the
    multiples of H, before anything else at that instant (the sweeper goroutine
    of ClientMap: for { Sleep(timeout/2); removeExpired(now, timeout) }). *)
-SweepDue == now % H = 0 /\ swept # now
+SweepDue == now % H = 0 /\ swept.at # now
 PeriodicNext ==
   /\ UNCHANGED hist
   /\ IF SweepDue THEN S
